@@ -10,6 +10,8 @@ import (
 	"encoding/json"
 	"fmt"
 	"os"
+	"os/exec"
+	"path/filepath"
 	"sort"
 	"strings"
 	"time"
@@ -205,6 +207,10 @@ func Main(args []string) int {
 	st.Fill(rep)
 	// scripted histories (an option changes in the middle of the proposal's life): same executor, same model
 	scripted := ScriptedHistories()
+	idMode := os.Getenv("VERIF_C14_ID")
+	if idMode != "" {
+		scripted = nil // the pass with a hostile proposal id runs the search only
+	}
 	var sjobs []interface{}
 	for _, h := range scripted {
 		sjobs = append(sjobs, explore.BFSJob{Hist: h, Tier: f.Tier})
@@ -250,6 +256,52 @@ func Main(args []string) int {
 	rep.Assume("states reached through a violation of the statement are not expanded (what follows is undefined by the statement); they are counted and carry their own state keys")
 	rep.Assume("fee-paying transactions change balances by the fee; states are merged on balances net of fees paid (sound because no amount of the alphabet comes near a balance)")
 	rep.Assume("transactions reach DeliverTx whether or not CheckTx accepted them (a proposer may include anything); the DeliverTx result is what the model sees")
+	// second pass: the same search (quick depth) with a proposal id that contains the separator of the stores'
+	// keys - an id the creator is free to choose. (Added after a sub-agent's remark about the unchanged tree:
+	// contributions to such a proposal could never be refunded; since the repair such ids are refused at creation,
+	// so nothing of this pass is ever accepted - which is why its vacuity guard is off.)
+	if idMode == "" {
+		tmp := filepath.Join(os.TempDir(), fmt.Sprintf("c14-idpass-%d.json", os.Getpid()))
+		cmd := exec.Command(os.Args[0], prop, "-tier", "quick", "-evidence", tmp, "-workers", fmt.Sprint(f.Workers))
+		cmd.Env = append(os.Environ(), "VERIF_C14_ID=underscore", "VERIF_DEPTH=5")
+		outB, _ := cmd.CombinedOutput()
+		var ce struct {
+			Coverage map[string]interface{} `json:"coverage"`
+		}
+		if b, err := os.ReadFile(tmp); err == nil {
+			json.Unmarshal(b, &ce)
+		}
+		os.Remove(tmp)
+		lines := strings.Split(string(outB), "\n")
+		nv := 0
+		for i, l := range lines {
+			if strings.HasPrefix(l, "VIOLATION property="+prop) && i+2 < len(lines) {
+				sig := strings.TrimPrefix(strings.TrimSpace(lines[i+1]), "signature: ")
+				what := strings.TrimPrefix(strings.TrimSpace(lines[i+2]), "what: ")
+				var cs map[string]interface{}
+				if j := strings.Index(l, "replay="); j >= 0 {
+					var doc struct {
+						Case map[string]interface{} `json:"case"`
+					}
+					if b, err := os.ReadFile(strings.TrimSpace(l[j+7:])); err == nil && json.Unmarshal(b, &doc) == nil {
+						cs = doc.Case
+					}
+					os.Remove(strings.TrimSpace(l[j+7:]))
+				}
+				if cs == nil {
+					cs = map[string]interface{}{}
+				}
+				cs["id_mode"] = "underscore"
+				rep.Violation(sig+"|id=with-key-separator", what+" (proposal id containing the key separator; replay with VERIF_C14_ID=underscore)", cs)
+				nv++
+			}
+		}
+		if ce.Coverage == nil {
+			st.HarnessErrors++
+			st.ErrSamples = append(st.ErrSamples, "pass with the hostile proposal id produced no evidence: "+tail(string(outB), 300))
+		}
+		rep.Set("pass_with_key_separator_in_the_proposal_id", map[string]interface{}{"states": ce.Coverage["states"], "transitions": ce.Coverage["transitions"], "violations": nv, "max_depth": 5})
+	}
 	// vacuity: every well-formed, authorised operation must have been accepted somewhere
 	never := []string{}
 	hostile := map[string]int64{}
@@ -268,6 +320,9 @@ func Main(args []string) int {
 	// is the expected outcome for them (an acceptance shows up as a violation of the clause concerned)
 	rep.Set("hostile_operations_accepted_count", hostile)
 	code := rep.Finish()
+	if idMode != "" {
+		never = nil
+	}
 	if len(never) > 0 {
 		fmt.Fprintf(harness.Out(), "%s: operations never accepted although well-formed and within depth: %v — the factory builds them wrongly or the bound is vacuous; refusing to report success\n", prop, never)
 		return 2
@@ -284,8 +339,9 @@ func Main(args []string) int {
 func replay(f explore.Flags) int {
 	var doc struct {
 		Case struct {
-			H    []int    `json:"h"`
-			Hist []string `json:"history"`
+			H      []int    `json:"h"`
+			Hist   []string `json:"history"`
+			IDMode string   `json:"id_mode"`
 		} `json:"case"`
 		H []int `json:"h"`
 	}
@@ -301,6 +357,19 @@ func replay(f explore.Flags) int {
 	h := doc.Case.H
 	if h == nil {
 		h = doc.H
+	}
+	if doc.Case.IDMode != "" && os.Getenv("VERIF_C14_ID") == "" {
+		// a case of the pass with the hostile proposal id: the id is fixed at process start
+		cmd := exec.Command(os.Args[0], prop, "-tier", f.Tier, "-replay", f.Replay)
+		cmd.Env = append(os.Environ(), "VERIF_C14_ID="+doc.Case.IDMode)
+		cmd.Stdout, cmd.Stderr = os.Stdout, os.Stderr
+		if err := cmd.Run(); err != nil {
+			if ee, ok := err.(*exec.ExitError); ok {
+				return ee.ExitCode()
+			}
+			return 2
+		}
+		return 0
 	}
 	harness.SilenceStdout()
 	defer harness.RemoveScratch()
@@ -327,4 +396,11 @@ func replay(f explore.Flags) int {
 	}
 	harness.Outf("no violation; state key %s\n", out.Key)
 	return 0
+}
+
+func tail(s string, n int) string {
+	if len(s) > n {
+		return s[len(s)-n:]
+	}
+	return s
 }
